@@ -71,6 +71,35 @@ CLAIMED = {
                 "libstdc++'s (app=1, ate=2, binary=4, in=8, out=16, trunc=32), read back from clang's constant evaluation.",
         "design": "4/C14",
     },
+    "C17": {
+        "rules": "R-SIB, R-WHOCALLS, R-MUSTCALL, R-GUARD, R-ORDER (guard facts at each return)",
+        "text": "Static analysis of name lookup and resource resolution: membership and index lookup scan the same range "
+                "with the same predicate, the case-blind path equality (whose mirror-normalisation shape and per-character "
+                "upper-casing are checked); name-taking forms delegate through GetIndex; every per-member call passes the "
+                "index verifier, which refuses exactly index >= count; must-facts at each of GetResourceStream's four "
+                "returns show rooted paths refused first, the loose file returned before archive access is consulted, "
+                "nothing with access disabled, otherwise OpenStream(GetIndex(name)) of the archive whose Contains(name) "
+                "held; archives are loaded VOL then CLM; a type listing appends a member only under ExtensionMatches and "
+                "!IsDuplicateFilename against the very list being built; a reported containing archive passed Contains.",
+        "note": "Declined: directory contents and std::filesystem semantics, regex listings, 'i-th name returns i' "
+                "(needs run-time duplicate-freeness).",
+        "design": "4/C17",
+    },
+    "C19": {
+        "rules": "R-SIB (comparator / key-function / mirror-normalisation shapes), de Bruijn table check",
+        "text": "Shape analysis on clang's resolved AST of the helpers whose laws callers rely on: the case-insensitive "
+                "'comes before' is a lexicographic comparison in which both operands of every element comparison pass "
+                "through the same key function on the same index, with both strict decisions and a strict length "
+                "tie-break (the shape that implies a strict weak order whose incomparability is key equality); equality "
+                "uses the same key; the archive comparator applies one projection to both paths; the duplicate scan "
+                "visits every adjacent pair; path equality is N(a) == N(b) with mirror-image normalisation; extension "
+                "matching upper-cases both sides; the upper-casing helper maps every character; the log2 table and "
+                "multiplier read from the AST form a de Bruijn indexing in 32-bit arithmetic. An unrecognised rewrite "
+                "is reported as analysis-broken (exit 2), never as a violation.",
+        "note": "Declined: the laws themselves over all strings, std::filesystem round trips, bytes >= 0x80 through a "
+                "signed char, exhaustive exactness of IsPowerOf2.",
+        "design": "4/C19",
+    },
     "C20": {
         "rules": "R-NARROW (width domain + dominating refusal), R-ORDER, R-WRITESET, R-MUSTCALL",
         "text": "Static analysis of every narrowing conversion on the writers' serialisation paths: each explicit cast, "
